@@ -240,6 +240,8 @@ structure Rel (b : Builder) (s : SpecSt) (ids : List ItemId) : Prop where
   stack : StackRel s.nodes ids s.stack b.stack
   desc : Desc s.stack
   inv : Inv s
+  /-- scopes are numbered in creation order: a parent scope has a smaller number (so every walk towards the root ends) -/
+  porder : ∀ k k', k < b.scopes.size → (b.scopes.getD k default).parent = some k' → k' < k
 
 /-! ### how the builder's updates change `getNext` -/
 
@@ -517,10 +519,11 @@ theorem rel_add (b b' : Builder) (s : SpecSt) (ids : List ItemId) (x : FNode) (n
     (ho : AddObs b b' ids (curParent s.stack) (lastOf s.nodes ids (curParent s.stack)) node)
     (hnew : NodeRel b' (ids ++ [node]) x node)
     (hinv : Inv { nodes := s.nodes ++ [x], stack := st' })
-    (hst : StackRel (s.nodes ++ [x]) (ids ++ [node]) st' b'.stack) (hd : Desc st') :
+    (hst : StackRel (s.nodes ++ [x]) (ids ++ [node]) st' b'.stack) (hd : Desc st')
+    (hpo : ∀ k k', k < b'.scopes.size → (b'.scopes.getD k default).parent = some k' → k' < k) :
     Rel b' { nodes := s.nodes ++ [x], stack := st' } (ids ++ [node]) := by
   have hl := hr.len
-  refine ⟨by simp [hl], ?_, ?_, ?_, ?_, hst, hd, hinv⟩
+  refine ⟨by simp [hl], ?_, ?_, ?_, ?_, hst, hd, hinv, hpo⟩
   · have := hr.cnt; have := ho.cnt; simp only [List.length_append, List.length_cons, List.length_nil]; omega
   · rw [List.nodup_append]
     refine ⟨hr.nodup, by simp, ?_⟩
@@ -893,7 +896,7 @@ theorem step_var_rel (b : Builder) (s : SpecSt) (ids : List ItemId) (name : Stri
       handleToNode := (if b1.handleToNode.size ≤ sig then b1.handleToNode ++ Array.replicate (sig + 1 - b1.handleToNode.size) none
         else b1.handleToNode).setIfInBounds sig (some b.vars.size),
       vars := b1.vars.push { name := name, sig := sig, parent := e.scopeId } }, by simp only [step, hadd], ?_⟩
-  apply rel_add b _ s ids _ (.var b.vars.size) s.stack hr rfl (fresh_var b s ids hr) ?_ ?_ hinv ?_ hr.desc
+  apply rel_add b _ s ids _ (.var b.vars.size) s.stack hr rfl (fresh_var b s ids hr) ?_ ?_ hinv ?_ hr.desc ?_
   · -- observations
     refine ⟨?_, ?_, ?_, ?_⟩
     · intro y
@@ -922,6 +925,10 @@ theorem step_var_rel (b : Builder) (s : SpecSt) (ids : List ItemId) (name : Stri
     simp only
     rw [hstk]
     exact stack_update s.nodes ids _ _ hr.len s.stack b.stack pos e hr.stack hr.desc (open_lt s hr.inv) rfl hfp
+  · intro k k' hk hp
+    simp only at hk hp
+    rw [(hsf k).2] at hp
+    exact hr.porder k k' (by omega) hp
 
 /-! ### opening a scope -/
 
@@ -1060,7 +1067,7 @@ theorem step_scope_new_rel (b : Builder) (s : SpecSt) (ids : List ItemId) (name 
     addToTree_obs b s ids (.scope b.scopes.size) hr
   refine ⟨b1, e.scopeId, hadd, ?_⟩
   have hopen := open_lt s hr.inv
-  apply rel_add b _ s ids _ (.scope b.scopes.size) _ hr rfl (fresh_scope b s ids hr) ?_ ?_ hinv ?_ ?_
+  apply rel_add b _ s ids _ (.scope b.scopes.size) _ hr rfl (fresh_scope b s ids hr) ?_ ?_ hinv ?_ ?_ ?_
   · refine ⟨?_, ?_, ?_, ?_⟩
     · intro y
       rw [getNext_push_scope b1 _ _ y, hss, hnext y]
@@ -1105,6 +1112,26 @@ theorem step_scope_new_rel (b : Builder) (s : SpecSt) (ids : List ItemId) (name 
     · rw [hstk]
       exact stack_update s.nodes ids _ _ hr.len s.stack b.stack pos e hr.stack hr.desc hopen rfl hfp
   · exact ⟨fun j' hj' => hopen j' hj', hr.desc⟩
+  · intro k k' hk hp
+    simp only [Array.size_push] at hk
+    by_cases hk1 : k < b1.scopes.size
+    · have hg : (b1.scopes.push { name := name, parent := e.scopeId : ScopeN }).getD k default = b1.scopes.getD k default := by
+        simp [Array.getElem?_push, Nat.ne_of_lt hk1]
+      simp only at hp
+      rw [hg, (hsf k).2] at hp
+      exact hr.porder k k' (by omega) hp
+    · have hk2 : k = b1.scopes.size := by omega
+      subst hk2
+      simp only [Array.getD_eq_getD_getElem?, Array.getElem?_push_size, Option.getD_some] at hp
+      cases hc : curParent s.stack with
+      | none => rw [hc] at hpar; simp only [ParentRel] at hpar; rw [hpar] at hp; cases hp
+      | some j =>
+        rw [hc] at hpar
+        obtain ⟨k2, h1, h2⟩ := hpar
+        rw [h2] at hp; cases hp
+        have := rel_valid b s ids hr (.scope k') (List.mem_of_getElem? h1)
+        simp only [ValidItem] at this
+        omega
 
 /-! ### operations that only change the stack -/
 
@@ -1122,7 +1149,7 @@ theorem rel_restack (b b' : Builder) (s : SpecSt) (ids : List ItemId) (st' : Lis
     (hv : b'.vars = b.vars) (hs : b'.scopes = b.scopes) (hf : b'.firstItem = b.firstItem)
     (hst : StackRel s.nodes ids st' b'.stack) (hd : Desc st') (hinv : Inv { s with stack := st' }) :
     Rel b' { s with stack := st' } ids := by
-  refine ⟨hr.len, by rw [hv, hs]; exact hr.cnt, hr.nodup, ?_, ?_, hst, hd, hinv⟩
+  refine ⟨hr.len, by rw [hv, hs]; exact hr.cnt, hr.nodup, ?_, ?_, hst, hd, hinv, by rw [hs]; exact hr.porder⟩
   · intro i n x hn hx
     exact nodeRel_congr b b' ids n x hv hs (hr.node i n x hn hx)
   · intro p
@@ -1261,7 +1288,7 @@ theorem rel_step (b : Builder) (s s' : SpecSt) (ids : List ItemId) (op : Op) (hr
 /-! ### whole histories -/
 
 theorem rel_init : Rel {} {} [] := by
-  refine ⟨rfl, rfl, List.nodup_nil, ?_, ?_, ?_, trivial, inv_init⟩
+  refine ⟨rfl, rfl, List.nodup_nil, ?_, ?_, ?_, trivial, inv_init, fun k k' hk => by simp at hk⟩
   · intro i n x hn _; simp at hn
   · intro p
     have hk : kids ([] : List FNode) [] p = [] := by simp [kids, childrenOf]
